@@ -81,6 +81,10 @@ def specOp (toks expect : List String) (impl : List String) : List String :=
              if Spec.stack Spec.isViaName we == Spec.stack Spec.isViaName wo &&
                 Spec.stack Spec.isRouteName we == Spec.stack Spec.isRouteName wo then [] else [s!"{id} routing-headers-changed"]
            | _, _ => [s!"{id} unreadable"])
+    | "selfrelay" =>  -- udpbuf: what is relayed for a datagram is determined by that datagram's own bytes
+      match toks, impl with
+      | _ :: _ :: _ :: d :: _, "ok" :: o :: _ => (Spec.relayViolations (unhex d) (unhex o)).map (fun v => s!"{id} relayed-datagram-{v}")
+      | _, _ => []
     | "robust" =>
       (if impl.head? == some "panic" then [s!"{id} panic-{impl.getD 1 "?"}"] else []) ++
       (if impl.any (fun t => t.startsWith "alloc=big") then [s!"{id} allocation-out-of-proportion-{impl.getLastD "?"}"] else [])
@@ -128,7 +132,8 @@ partial def loop (ops impl : Array String) (i : Nat) (st : DrvState) (out : IO.F
     if implLine.startsWith "process-died" then
       -- whatever was being processed killed the whole process: a C08 violation with this op as replay
       IO.println s!"SPEC {i + 1} C08 {implLine.replace " " "-"}"
-      s := s + 1
+      IO.println s!"SPEC {i + 1} C09 {implLine.replace " " "-"}"
+      s := s + 2
     for seg in (if implLine == "not-run" || implLine.startsWith "process-died" then [] else segs) do
       -- `spec=<id> remember <tag>` / `spec=<id> sameas <tag>`: two ops must have the same implementation output
       if (words seg).getD 1 "" == "remember" then
